@@ -50,6 +50,9 @@ def do_import(tree, sid, prop):
         failed_clean, sum_clean = tests(tree)
     finally:
         sh("git stash pop -q", cwd=tree)
+    if failed_changed != failed_clean:
+        # the repository's suite has load-dependent flakes: confirm a differing set of failures once more before rejecting
+        failed_changed, sum_changed = tests(tree)
     ok = rc_changed == 1 and rc_clean == 0 and failed_changed == failed_clean
     d = SEEDED / sid
     d.mkdir(parents=True, exist_ok=True)
